@@ -3,6 +3,7 @@ package main
 import (
 	"fmt"
 	"go/token"
+	"go/types"
 	"strings"
 
 	"golang.org/x/tools/go/ssa"
@@ -503,6 +504,11 @@ func rules2BitTable(c *Ctx, r *Report, itonFn *ssa.Function, itonOf map[int64]in
 			}
 		})
 	}
+	if pt, ok := g.Type().Underlying().(*types.Pointer); ok {
+		if arr, isArr := pt.Elem().Underlying().(*types.Array); isArr {
+			size = arr.Len()
+		}
+	}
 	r.check(size >= 256, "T-2BIT", where, "size", c.pos(g.Pos()), fmt.Sprintf("table has %d rows", size), fmt.Sprintf("table has %d rows but is indexed by a byte", size))
 	// the source of the copy: a local 4-byte slice filled by the inner loop
 	var stores []*ssa.Store
@@ -670,7 +676,7 @@ func rules2BitTable(c *Ctx, r *Report, itonFn *ssa.Function, itonOf map[int64]in
 		arg := s.expr(cl.Call.Args[1])
 		okArg := false
 		var idxSym *Sym
-		if arg.Op == "slice" && arg.Args[1].String() == "_" && arg.Args[2].String() == "_" && arg.Args[0].Op == "index" && arg.Args[0].Args[0].String() == "load(G:"+g.Name()+")" {
+		if arg.Op == "slice" && arg.Args[1].String() == "_" && arg.Args[2].String() == "_" && arg.Args[0].Op == "index" && (arg.Args[0].Args[0].String() == "load(G:"+g.Name()+")" || arg.Args[0].Args[0].String() == "G:"+g.Name()) {
 			el := arg.Args[0].Args[1]
 			if el.Op == "load" && el.Args[0].Op == "index" && el.Args[0].Args[0].String() == "P1" {
 				okArg, idxSym = true, el.Args[0].Args[1]
